@@ -25,11 +25,12 @@ def _h(name, props, tier=Q, timeout=600, stubs=False):
 for ty, lens in (("u1", (1, 2, 3)), ("u2", (1, 2, 3)), ("u4", (1, 2, 3, 4)), ("u8", (1, 2, 3, 4)), ("u16", (4, 5, 6)),
                  ("u32", (9, 10, 11)), ("u64", (19, 20, 21)), ("u128", (38, 39, 40))):
     for ln in lens:
-        _h("c11_dec_%s_len%d" % (ty, ln), ["C11", "C06"], tier=T if ty == "u128" else Q, timeout=1500)
+        # C06 (panic-freedom) takes the longest string per type; C11 (values) all three lengths
+        _h("c11_dec_%s_len%d" % (ty, ln), ["C11", "C06"] if ln == lens[-1] else ["C11"], tier=T if ty == "u128" else Q, timeout=1500)
 _h("c11_no_digit_decimal_any_type", ["C11", "C06"])
 _h("c11_no_digit_binary_any_type", ["C11", "C06"])
 for ln in (1, 2, 3, 4, 8, 9, 16, 32, 64):
-    _h("c11_bin_len%d" % ln, ["C11", "C06"], tier=Q if ln <= 32 else T, timeout=1500, stubs=True)
+    _h("c11_bin_len%d" % ln, ["C11", "C06"] if ln in (1, 8, 9, 32, 64) else ["C11"], tier=Q if ln <= 32 else T, timeout=1500, stubs=True)
 for ln in (0, 1, 2, 3, 4, 8, 16):
     _h("c11_hex_anyint_len%d" % ln, ["C11", "C06"], tier=Q if ln <= 4 else T, timeout=1500)
 for n in (0, 1, 2, 3, 4, 8, 16, 32):
@@ -118,7 +119,9 @@ def run_one(name, target_dir, extra=None, cwd=KANI_DIR):
     cmd = ["cargo", "kani", "-Z", "stubbing", "--harness", "harness::" + name, "--exact", "--output-format", "terse", "--target-dir", target_dir] + (extra or [])
     t0 = time.time()
     try:
-        r = subprocess.run(cmd, cwd=cwd, env=env, capture_output=True, text=True, timeout=h["timeout"], preexec_fn=_limits)
+        gb = int(os.environ.get("VERIF_KANI_MEM_GB", "12"))
+        cmd = ["setpriv", "--pdeathsig", "KILL", "prlimit", "--as=%d" % (gb << 30)] + cmd
+        r = subprocess.run(cmd, cwd=cwd, env=env, capture_output=True, text=True, timeout=h["timeout"])
         out = r.stdout + r.stderr
         res = parse_output(out)
     except subprocess.TimeoutExpired as e:
@@ -155,6 +158,15 @@ def run_all(names, jobs=8):
 
 def replay(name):
     """concrete playback of a failing harness against the real code; returns (reproduced, record)"""
+    try:
+        return _replay(name)
+    except subprocess.TimeoutExpired as e:
+        return False, {"harness": name, "note": "concrete playback timed out: %s" % str(e)[:200]}
+    except Exception as e:  # a broken replay must end as inconclusive, never as a crash
+        return False, {"harness": name, "note": "concrete playback failed: %s" % str(e)[:300]}
+
+
+def _replay(name):
     scratch = os.path.join(WORK, "kani-replay-" + name)
     shutil.rmtree(scratch, ignore_errors=True)
     os.makedirs(scratch)
@@ -163,23 +175,34 @@ def replay(name):
     shutil.copytree(os.path.join(KANI_DIR, "src"), os.path.join(scratch, "src"))
     env = dict(os.environ, CARGO_NET_OFFLINE="true")
     tdir = os.path.join(scratch, "target")
-    r = subprocess.run(["cargo", "kani", "-Z", "stubbing", "-Z", "concrete-playback", "--concrete-playback=inplace", "--harness", name,
-                        "--output-format", "terse", "--target-dir", tdir], cwd=scratch, env=env, capture_output=True, text=True,
+    r = subprocess.run(["cargo", "kani", "-Z", "stubbing", "-Z", "concrete-playback", "--concrete-playback=print", "--harness", "harness::" + name, "--exact",
+                        "--target-dir", tdir], cwd=scratch, env=env, capture_output=True, text=True,
                        timeout=HARNESSES[name]["timeout"] + 300)
-    src = open(os.path.join(scratch, "src", "lib.rs")).read()
-    tests = re.findall(r"fn (kani_concrete_playback_%s_\w+)\(\)" % re.escape(name), src)
-    rec = {"harness": name, "kani_output_tail": (r.stdout + r.stderr)[-2500:], "playback_tests": tests}
+    out0 = r.stdout + r.stderr
+    # the harnesses are generated by macros, so `inplace` playback would paste the test into the macro body;
+    # take the printed unit tests and put them at the end of `mod harness` of the scratch copy instead
+    tests = re.findall(r"(#\[test\]\s*fn (kani_concrete_playback_\w+)\(\) \{.*?\n\})", out0, re.S)
+    rec = {"harness": name, "kani_output_tail": out0[-1500:], "playback_tests": [t[1] for t in tests]}
     if not tests:
-        rec["note"] = "kani produced no concrete playback test"
+        rec["note"] = "kani printed no concrete playback test"
         shutil.rmtree(scratch, ignore_errors=True)
         return False, rec
-    m = re.search(r"(#\[test\]\s*fn %s\(\).*?\n    \})" % re.escape(tests[0]), src, re.S)
-    rec["playback_test_source"] = m.group(1) if m else None
-    p = subprocess.run(["cargo", "kani", "playback", "-Z", "concrete-playback", "--", tests[0]], cwd=scratch, env=env, capture_output=True, text=True,
-                       timeout=1800)
+    lib = os.path.join(scratch, "src", "lib.rs")
+    src = open(lib).read().rstrip()
+    assert src.endswith("}")
+    seen = set()
+    body = ""
+    for code, tname in tests:
+        if tname not in seen:
+            seen.add(tname)
+            body += "\n    " + code.replace("\n", "\n    ") + "\n"
+    open(lib, "w").write(src[:-1] + body + "}\n")
+    rec["playback_test_source"] = body[:3000]
+    p = subprocess.run(["cargo", "kani", "playback", "-Z", "concrete-playback", "--", "kani_concrete_playback_" + name], cwd=scratch, env=env,
+                       capture_output=True, text=True, timeout=1800)
     out = p.stdout + p.stderr
     rec["native_output_tail"] = out[-2500:]
-    reproduced = p.returncode != 0 and ("panicked at" in out or "FAILED" in out)
+    reproduced = p.returncode != 0 and "panicked at" in out and "test result: FAILED" in out
     rec["reproduced_on_real_code"] = reproduced
     shutil.rmtree(scratch, ignore_errors=True)
     return reproduced, rec
